@@ -51,10 +51,10 @@ Section StrandMerge.
   Let S' := merged_strand_survey.
 
   (* the strand as stripe/cubemeasure.py extracts it from the tabulation: original, merged *)
-  Definition so_counts : list xq := st_cat_counts S v ms.
-  Definition so_bases : list xq := st_cat_bases S v ms.
-  Definition sm_counts : list xq := st_cat_counts S' v ms'.
-  Definition sm_bases : list xq := st_cat_bases S' v ms'.
+  Definition st_o_counts : list xq := st_cat_counts S v ms.
+  Definition st_o_bases : list xq := st_cat_bases S v ms.
+  Definition st_m_counts : list xq := st_cat_counts S' v ms'.
+  Definition st_m_bases : list xq := st_cat_bases S' v ms'.
 
   Lemma n_lt' : n < nval ms'.
   Proof. unfold n, ms'. rewrite !nval_n_valid, n_valid_merged. lia. Qed.
@@ -67,9 +67,9 @@ Section StrandMerge.
   Definition w_merged : Q := wsum S' (fun r => in_cat ms' (ans r v) n).
   Definition w_total : Q := wsum S (fun r => ok_cat ms (ans r v)).
 
-  Lemma sm_count_n : vnth sm_counts n =x= Fin w_merged.
+  Lemma st_m_count_n : vnth st_m_counts n =x= Fin w_merged.
   Proof.
-    unfold sm_counts, st_cat_counts. rewrite (tab_vnth _ _ n n_lt').
+    unfold st_m_counts, st_cat_counts. rewrite (tab_vnth _ _ n n_lt').
     apply (strand_cat_counts_spec S' v ms' n n_lt').
   Qed.
 
@@ -80,65 +80,65 @@ Section StrandMerge.
     simpl in H. unfold w_merged, S', merged_strand_survey, ms', n. rewrite nval_n_valid. exact H.
   Qed.
 
-  Lemma so_count_i i : i < n -> vnth so_counts i =x= Fin (wsum S (fun r => in_cat ms (ans r v) i)).
+  Lemma st_o_count_i i : i < n -> vnth st_o_counts i =x= Fin (wsum S (fun r => in_cat ms (ans r v) i)).
   Proof.
-    intros Hi. unfold so_counts, st_cat_counts. rewrite (tab_vnth _ _ i Hi).
+    intros Hi. unfold st_o_counts, st_cat_counts. rewrite (tab_vnth _ _ i Hi).
     apply (strand_cat_counts_spec S v ms i Hi).
   Qed.
 
   (* ---- counts ------------------------------------------------------------------------------ *)
-  Lemma strand_sum_is_merged : vsum_idx so_counts (s_add s) =x= vnth sm_counts n.
+  Lemma strand_sum_is_merged : vsum_idx st_o_counts (s_add s) =x= vnth st_m_counts n.
   Proof.
-    rewrite sm_count_n. unfold vsum_idx.
+    rewrite st_m_count_n. unfold vsum_idx.
     rewrite (xsum_map_fin _ (fun i => wsum S (fun r => in_cat ms (ans r v) i)) (s_add s)).
     - simpl. symmetry. apply w_merged_sum.
-    - intros i Hi. apply so_count_i. rewrite Forall_forall in Hoffs. apply (Hoffs i Hi).
+    - intros i Hi. apply st_o_count_i. rewrite Forall_forall in Hoffs. apply (Hoffs i Hi).
   Qed.
 
-  Lemma strand_subtotal_value : stripe_sum_subtotal so_counts s =x= vnth sm_counts n.
+  Lemma strand_subtotal_value : stripe_sum_subtotal st_o_counts s =x= vnth st_m_counts n.
   Proof.
     unfold stripe_sum_subtotal. rewrite Hsub. unfold vsum_idx at 2. simpl map. simpl xsum.
     rewrite xsub_zero_r. apply strand_sum_is_merged.
   Qed.
 
   Theorem merge_strand_counts :
-    vnth (stripe_sum_subtotals so_counts subs) kk =x= vnth sm_counts n.
+    vnth (stripe_sum_subtotals st_o_counts subs) kk =x= vnth st_m_counts n.
   Proof.
     unfold stripe_sum_subtotals. rewrite (vnth_map_lt _ subs nosub kk Hkk). apply strand_subtotal_value.
   Qed.
 
   (* ---- bases: a subtotal's base is the table base; so is the merged row's ------------------------ *)
-  Lemma so_base_0 : 0 < n -> vnth so_bases 0 =x= Fin w_total.
+  Lemma st_o_base_0 : 0 < n -> vnth st_o_bases 0 =x= Fin w_total.
   Proof.
-    intros H0. unfold so_bases, st_cat_bases. rewrite (tab_vnth _ _ 0 H0).
+    intros H0. unfold st_o_bases, st_cat_bases. rewrite (tab_vnth _ _ 0 H0).
     apply (strand_cat_table_base_spec S v ms).
   Qed.
 
-  Lemma sm_base_n : vnth sm_bases n =x= Fin w_total.
+  Lemma st_m_base_n : vnth st_m_bases n =x= Fin w_total.
   Proof.
-    unfold sm_bases, st_cat_bases. rewrite (tab_vnth _ _ n n_lt').
+    unfold st_m_bases, st_cat_bases. rewrite (tab_vnth _ _ n n_lt').
     etransitivity; [apply (strand_cat_table_base_spec S' v ms')|].
     pose proof (tab_recode_total S v ms (s_add s) (fun _ => true) Hoffs Hfresh HCtrue) as H.
     simpl in H. unfold w_total, S', merged_strand_survey, ms'. simpl. exact H.
   Qed.
 
-  Theorem merge_strand_base : 0 < n -> vnth so_bases 0 =x= vnth sm_bases n.
-  Proof. intros H0. rewrite (so_base_0 H0), sm_base_n. reflexivity. Qed.
+  Theorem merge_strand_base : 0 < n -> vnth st_o_bases 0 =x= vnth st_m_bases n.
+  Proof. intros H0. rewrite (st_o_base_0 H0), st_m_base_n. reflexivity. Qed.
 
   (* ---- table proportion ---------------------------------------------------------------------- *)
   Lemma has_subs_s' : has_subs s = false.
   Proof. unfold has_subs. rewrite Hsub. reflexivity. Qed.
 
   Theorem merge_strand_proportion rows_date : 0 < n ->
-    vnth (strand_props_subtotals so_counts so_bases (vnth so_bases 0) rows_date subs) kk
-    =x= vnth (strand_props_base sm_counts sm_bases) n.
+    vnth (strand_props_subtotals st_o_counts st_o_bases (vnth st_o_bases 0) rows_date subs) kk
+    =x= vnth (strand_props_base st_m_counts st_m_bases) n.
   Proof.
     intros H0. unfold strand_props_subtotals. rewrite (vnth_map_lt _ subs nosub kk Hkk). fold s.
-    assert (E : forall d, strand_wave_value so_counts so_bases rows_date s d = d).
+    assert (E : forall d, strand_wave_value st_o_counts st_o_bases rows_date s d = d).
     { intros d. unfold strand_wave_value. rewrite has_subs_s'. destruct rows_date; reflexivity. }
     rewrite E.
-    rewrite (strand_props_base_nth sm_counts sm_bases n)
-      by (unfold sm_counts, st_cat_counts; rewrite tab_length; exact n_lt').
+    rewrite (strand_props_base_nth st_m_counts st_m_bases n)
+      by (unfold st_m_counts, st_cat_counts; rewrite tab_length; exact n_lt').
     rewrite strand_subtotal_value, (merge_strand_base H0). reflexivity.
   Qed.
 
@@ -155,22 +155,22 @@ Section StrandMerge.
   Qed.
 
   Theorem merge_strand_variance rows_date : 0 < n ->
-    let pw := strand_props_subtotals so_counts so_bases (vnth so_bases 0) rows_date subs in
-    let bw := map (fun _ => vnth so_bases 0) subs in
-    vnth (strand_var_subtotals so_counts subs pw bw) kk
-    =x= vnth (strand_var_base (strand_props_base sm_counts sm_bases)) n.
+    let pw := strand_props_subtotals st_o_counts st_o_bases (vnth st_o_bases 0) rows_date subs in
+    let bw := map (fun _ => vnth st_o_bases 0) subs in
+    vnth (strand_var_subtotals st_o_counts subs pw bw) kk
+    =x= vnth (strand_var_base (strand_props_base st_m_counts st_m_bases)) n.
   Proof.
     intros H0. cbv zeta. unfold strand_var_subtotals. rewrite (tab_vnth _ _ kk Hkk). fold s.
     rewrite Hsub. unfold vsum_idx at 2. simpl map. simpl xsum.
     rewrite (vnth_map_lt _ subs nosub kk Hkk).
     unfold strand_var_base.
     rewrite (vnth_map_lt (fun p => xmul p (xsub (Fin 1) p)) _ NaN n)
-      by (unfold strand_props_base, sm_counts, st_cat_counts; rewrite !tab_length; exact n_lt').
-    change (nth n (strand_props_base sm_counts sm_bases) NaN) with (vnth (strand_props_base sm_counts sm_bases) n).
+      by (unfold strand_props_base, st_m_counts, st_cat_counts; rewrite !tab_length; exact n_lt').
+    change (nth n (strand_props_base st_m_counts st_m_bases) NaN) with (vnth (strand_props_base st_m_counts st_m_bases) n).
     rewrite (merge_strand_proportion rows_date H0).
-    rewrite (strand_props_base_nth sm_counts sm_bases n)
-      by (unfold sm_counts, st_cat_counts; rewrite tab_length; exact n_lt').
-    rewrite strand_sum_is_merged, (so_base_0 H0), sm_count_n, sm_base_n.
+    rewrite (strand_props_base_nth st_m_counts st_m_bases n)
+      by (unfold st_m_counts, st_cat_counts; rewrite tab_length; exact n_lt').
+    rewrite strand_sum_is_merged, (st_o_base_0 H0), st_m_count_n, st_m_base_n.
     destruct w_merged_le as [L0 L1].
     destruct (Qeq_dec w_total 0) as [E|E].
     - (* nobody answered: count and base are 0, both sides NaN *)
@@ -184,10 +184,10 @@ Section StrandMerge.
   Qed.
 
   Theorem merge_strand_stderr_sq rows_date : 0 < n ->
-    let pw := strand_props_subtotals so_counts so_bases (vnth so_bases 0) rows_date subs in
-    let bw := map (fun _ => vnth so_bases 0) subs in
-    stderr_sq (vnth (strand_var_subtotals so_counts subs pw bw) kk) (vnth bw kk)
-    =x= stderr_sq (vnth (strand_var_base (strand_props_base sm_counts sm_bases)) n) (vnth sm_bases n).
+    let pw := strand_props_subtotals st_o_counts st_o_bases (vnth st_o_bases 0) rows_date subs in
+    let bw := map (fun _ => vnth st_o_bases 0) subs in
+    stderr_sq (vnth (strand_var_subtotals st_o_counts subs pw bw) kk) (vnth bw kk)
+    =x= stderr_sq (vnth (strand_var_base (strand_props_base st_m_counts st_m_bases)) n) (vnth st_m_bases n).
   Proof.
     intros H0. cbv zeta. unfold stderr_sq. apply xdiv_Proper.
     - apply (merge_strand_variance rows_date H0).
@@ -200,9 +200,9 @@ Theorem merge_strand_population S v ms subs kk rows_date N f :
   kk < length subs -> s_sub (nth kk subs nosub) = [] ->
   Forall (fun i => i < n_valid ms) (s_add (nth kk subs nosub)) -> NoDup (s_add (nth kk subs nosub)) ->
   fresh_for v ms S -> 0 < nval ms ->
-  pop_cell (vnth (strand_props_subtotals (so_counts S v ms) (so_bases S v ms) (vnth (so_bases S v ms) 0)
+  pop_cell (vnth (strand_props_subtotals (st_o_counts S v ms) (st_o_bases S v ms) (vnth (st_o_bases S v ms) 0)
                                          rows_date subs) kk) N f false
-  =x= pop_cell (vnth (strand_props_base (sm_counts S v ms subs kk) (sm_bases S v ms subs kk)) (nval ms)) N f false.
+  =x= pop_cell (vnth (strand_props_base (st_m_counts S v ms subs kk) (st_m_bases S v ms subs kk)) (nval ms)) N f false.
 Proof.
   intros Hkk Hsub Hoffs Hnd Hfresh H0. unfold pop_cell.
   rewrite (merge_strand_proportion S v ms subs kk Hkk Hsub Hoffs Hnd Hfresh rows_date H0). reflexivity.
